@@ -102,7 +102,7 @@ class C09(Check):
                 n = r.randint(2, 12)
                 return {'delay': (n + r.uniform(-0.45, 0.45)) * dt, 'dsteps': n}
             return {}
-        spec = models.gen_net(rng, n_nodes=rng.randint(2, 5), libs=('lin', 'leak', 'integ', 'osc'), max_edges=6,
+        spec = models.gen_net(rng, n_nodes=rng.randint(2, 5), libs=('lin', 'leak', 'integ', 'osc', 'linl'), max_edges=6,
                               delays=delays, hier=rng.random() < 0.2)
         return {'spec': spec, 'cfg': cfg}
 
